@@ -93,12 +93,13 @@ pub fn affine_case(cx: &mut Ctx, n: u64, case: &Value) {
         let want: Vec<i64> = post.iter().map(|x| *x as i64).collect();
         chk("i64_compose", "AffineTransform<i64>::compose".into(), got.to_vec() == want, format!("{got:?}"));
         if det == 0.0 {
-            chk("i64_inverse", "AffineTransform<i64>::inverse of a singular matrix".into(), iv(&post).inverse().is_none(), format!("{:?}", iv(&post).inverse()));
+            let r = guard(|| iv(&post).inverse());
+            chk("i64_inverse", "AffineTransform<i64>::inverse of a singular matrix".into(), matches!(r, Ok(None)), format!("{r:?}"));
         } else if det.abs() == 1.0 {
             let nums = mat(&case["inverse"][0]);
             let want: Vec<i64> = nums.iter().map(|x| (*x / det) as i64).collect();
-            let got = iv(&post).inverse().map(|i| vec![i.a(), i.b(), i.xoff(), i.d(), i.e(), i.yoff()]);
-            chk("i64_inverse", "AffineTransform<i64>::inverse of a unimodular matrix".into(), got == Some(want), format!("{got:?}"));
+            let got = guard(|| iv(&post).inverse().map(|i| vec![i.a(), i.b(), i.xoff(), i.d(), i.e(), i.yoff()]));
+            chk("i64_inverse", "AffineTransform<i64>::inverse of a unimodular matrix".into(), got == Ok(Some(want)), format!("{got:?}"));
         }
     }
     // trait forms on a geometry centred on the origin of the call: bounding-box centre = centroid = o
